@@ -1347,6 +1347,7 @@ func (c *Client) readSlices() (message, topic []byte, err error) {
 
 		// no errors guaranteed
 		c.bufr.Discard(len(c.peek))
+		c.peek = nil
 	}
 }
 
